@@ -21,7 +21,7 @@ RULE = ('wind files (both time-header variants, 1-9 time steps) and files of the
         'reader and by the Read reader; both views (dimension lengths, data of every variable as float32 bits, time '
         'flags where both define them) are compared with the Lean reader model and with each other; non-trivial = at '
         'least two of nz, ny*nx, nt differ from each other and from 1')
-ASSUMPTIONS = ['wind: layout (Lean encoder) and both readers are compared with the encoded content; its reader inference is not modelled; grids of at least 4 cells (records of 4, 8 or 12 bytes are indistinguishable from the closing / header records)',
+ASSUMPTIONS = ['wind: layout (Lean encoder), the Memmap reader against its Lean model (Wind.read: header variant from the first marker, layers from the run of data records, steps from the file size; theorem Wind.read_encode) and both readers against the encoded content; grids of at least 4 cells (records of 4, 8 or 12 bytes are indistinguishable from the closing / header records)',
                'record readers: the one3d family, height/pressure and temperature are modelled (SlabRead.lean: layer count, step, end search / last record, '
                'timerange, record positions over integer HHMM arithmetic) and proved to present the written content on regular time '
                'axes (read_decode_encode, readers_agree, read_temp_decode_encode, readers_agree_temperature); Python float division int(a/b) and a//b are taken to equal integer truncating / floor division '
@@ -143,7 +143,9 @@ def _diff_slab(kv, v, with_tflag):
 
 def agree(case, out, res):
     if case['family'] == 'wind':
-        return None if out == 'ok ' + res['hex'] else 'the python reference encoder and the Lean wind encoder differ'
+        if out != 'ok ' + res['hex']:
+            return 'the python reference encoder and the Lean wind encoder differ'
+        return S.wind_model_diff(case, res['hex'], res['memmap'])
     if case['family'] == 'uamiv':
         if not out.startswith('ok '):
             return 'model ' + out[:40]
